@@ -542,8 +542,12 @@ outerNew:
 					if col+i >= len(vx.screenNext.buf[row]) {
 						break
 					}
-					// null out any cells we end up skipping
-					vx.screenLast.buf[row][col+i] = Cell{}
+					// null out any cells we end up skipping. The
+					// zero Cell is what a never-written cell looks
+					// like, so it can't be used to mean "unknown":
+					// mark the cell the way sixel-covered cells are
+					// marked, which never equals a drawable cell
+					vx.screenLast.buf[row][col+i] = Cell{sixel: true}
 				}
 				col += skip
 				continue
@@ -749,7 +753,7 @@ outerNew:
 					break
 				}
 				// null out any cells we end up skipping
-				vx.screenLast.buf[row][col+i] = Cell{}
+				vx.screenLast.buf[row][col+i] = Cell{sixel: true}
 			}
 			col += skip
 		}
